@@ -44,7 +44,18 @@ Core(sph) ==
           <<>>, <<VUniform(<<2, 2, 2>>)>>) >>
 Late(sph) == Area("mantle layer", "late", RectU(sph, 750, 200, 900, 450), 100*Km, 200*Km,
                   <<TUniform(400, "add")>>, <<>>, <<>>, <<>>)
-Features(sph) == Core(sph) \o <<Late(sph)>>
+(* veils: features without any model, one of each type, listed last, each over one probe of C01.tla.  A feature without models of a
+   kind leaves that kind as it was - whatever else is in the request *)
+Veils(sph) ==
+  << Area("continental plate", "veil-c", RectU(sph, 50, 50, 150, 150), 0, 100*Km, <<>>, <<>>, <<>>, <<>>),
+     Area("oceanic plate", "veil-o", RectU(sph, 550, 200, 650, 300), 0, 200*Km, <<>>, <<>>, <<>>, <<>>),
+     Area("mantle layer", "veil-m", RectU(sph, 780, 230, 820, 270), 100*Km, 200*Km, <<>>, <<>>, <<>>, <<>>),
+     Plume("veil-p", <<XY(sph,300,250), XY(sph,300,250)>>, <<10*Km, 100*Km>>, <<U(sph,30), U(sph,30)>>, <<0, 0>>, <<0, 0>>, 5*Km, 90*Km, <<>>, <<>>, <<>>, <<>>),
+     Line("fault", "veil-f", <<XY(sph,250,150), XY(sph,250,350)>>, XY(sph,0,250), 0, 600*Km,
+          <<Segment(300*Km, <<60*Km>>, <<0>>, <<90>>)>>, <<>>, <<>>, <<>>, <<>>),
+     Line("subducting plate", "veil-s", <<XY(sph,790,300), XY(sph,790,500)>>, XY(sph,1000,400), 0, 600*Km,
+          <<Segment(300*Km, <<60*Km>>, <<0>>, <<90>>)>>, <<>>, <<>>, <<>>, <<>>) >>
+Features(sph) == Core(sph) \o <<Late(sph)>> \o Veils(sph)
 
 
 (* a cooling oceanic plate north of everything else: its temperature depends continuously on the
